@@ -97,6 +97,14 @@ func bufprop(r *simkit.Run, prop string) {
 	if cfg.retry != nil {
 		opts = append(opts, buffer.Retry(cfg.retry.render(false)))
 	}
+	// the order in which options are passed means nothing
+	if perm := rapid.Permutation(seq(len(opts))).Draw(rt, "option-order"); true {
+		shuffled := make([]buffer.Option, len(opts))
+		for i, j := range perm {
+			shuffled[i] = opts[j]
+		}
+		opts = shuffled
+	}
 	// by draw the buffer is built with the caller's own error handler (the default mapping plus a mark on the
 	// response: the configured handler, and not the built-in one, answers whenever the buffer refuses) and is verbose
 	ownHandler := rapid.IntRange(0, 2).Draw(rt, "own-error-handler") == 0
@@ -546,3 +554,11 @@ func truncate(b []byte) string {
 // failKind fails from one call site per kind so that rapid's shrinker, which
 // compares message and traceback, keeps to one class.
 func failKind(r *simkit.Run, kind, msg string) { r.Fail(kind, "%s", msg) }
+
+func seq(n int) []int {
+	out := make([]int, n)
+	for i := range out {
+		out[i] = i
+	}
+	return out
+}
